@@ -130,6 +130,14 @@ func c04Values(types []*pt.Type) []c04Value {
 		c04Value{"litvar-comp:[a]", []pt.Stmt{a}, pt.A(pt.V("a"))}, c04Value{"litvar-comp:{k:a}", []pt.Stmt{a}, pt.M("k", pt.V("a"))},
 		c04Value{"litvar-comp:[a [1]]", []pt.Stmt{a}, pt.A(pt.V("a"), pt.A(pt.N(1)))}, c04Value{"litvar-comp:[mm]", []pt.Stmt{mm}, pt.A(pt.V("mm"))},
 		c04Value{"litvar-any:[x]", []pt.Stmt{x}, pt.A(pt.V("x"))},
+		// a variable next to literals of the same / another / no element type, in both orders and in maps with several keys
+		c04Value{"litvar-comp:[[1] a]", []pt.Stmt{a}, pt.A(pt.A(pt.N(1)), pt.V("a"))}, c04Value{"litvar-comp:[[1] a [\"x\"]]", []pt.Stmt{a}, pt.A(pt.A(pt.N(1)), pt.V("a"), pt.A(pt.S("x")))},
+		c04Value{"litvar-comp:[a [\"x\"]]", []pt.Stmt{a}, pt.A(pt.V("a"), pt.A(pt.S("x")))},
+		c04Value{"litvar-comp:{p:[2] q:a}", []pt.Stmt{a}, pt.M("p", pt.A(pt.N(2)), "q", pt.V("a"))}, c04Value{"litvar-comp:{p:a q:[2]}", []pt.Stmt{a}, pt.M("p", pt.V("a"), "q", pt.A(pt.N(2)))},
+		c04Value{"litvar-comp:{z:[2] b:a c:[3]}", []pt.Stmt{a}, pt.M("z", pt.A(pt.N(2)), "b", pt.V("a"), "c", pt.A(pt.N(3)))},
+		c04Value{"litvar-comp:[a []]", []pt.Stmt{a}, pt.A(pt.V("a"), pt.A())}, c04Value{"litvar-comp:[[] a]", []pt.Stmt{a}, pt.A(pt.A(), pt.V("a"))},
+		c04Value{"litvar-comp:{p:mm q:{}}", []pt.Stmt{mm}, pt.M("p", pt.V("mm"), "q", pt.M())}, c04Value{"litvar-comp:{p:{} q:mm}", []pt.Stmt{mm}, pt.M("p", pt.M(), "q", pt.V("mm"))},
+		c04Value{"litvar-comp:{k:[mm {}]}", []pt.Stmt{mm}, pt.M("k", pt.A(pt.V("mm"), pt.M()))},
 		c04Value{"constexpr:[1]+[2]", nil, pt.Bin("+", pt.A(pt.N(1)), pt.A(pt.N(2)))}, c04Value{"constexpr:([1])", nil, pt.Group{X: pt.A(pt.N(1))}},
 		c04Value{"constexpr:[1][:]", nil, pt.Slice{X: pt.A(pt.N(1))}}, c04Value{"constexpr:[1]*2", nil, pt.Bin("*", pt.A(pt.N(1)), pt.N(2))},
 		c04Value{"constexpr:[[1]][0]", nil, pt.Index{X: pt.A(pt.A(pt.N(1))), I: pt.N(0)}}, c04Value{"constexpr:{a:[1]}.a", nil, pt.Dot{X: pt.M("a", pt.A(pt.N(1))), Key: "a"}},
@@ -205,6 +213,18 @@ func runC04(w *fw.Worker) {
 			emit("return", cell, nt, cat(val.pre, []pt.Stmt{pt.InferDecl{Name: "r", X: pt.C("f")}, typeofPrint(pt.V("r")),
 				pt.Func{Name: "f", Ret: T, Body: []pt.Stmt{pt.Return{X: val.x}}}})...)
 		}
+	}
+	// every binding site makes a variable: loop variables, parameters and variadic parameters have fixed types like declared variables
+	for _, T := range types {
+		use := []pt.Stmt{pt.TypedDecl{Name: "t", T: T}, pt.Assign{Target: pt.V("t"), X: pt.V("b")}, typeofPrint(pt.V("t"))}
+		emit("bound", "loopvar-over-literal", true, pt.For{Var: "b", Range: []pt.Expr{pt.A(pt.A(pt.N(1)), pt.A(pt.N(2)))}, Body: use})
+		emit("bound", "loopvar-over-variable", true, pt.InferDecl{Name: "xs", X: pt.A(pt.A(pt.N(1)), pt.A(pt.N(2)))}, pt.For{Var: "b", Range: []pt.Expr{pt.V("xs")}, Body: use})
+		emit("bound", "loopvar-over-map-literal", true, pt.For{Var: "b", Range: []pt.Expr{pt.M("k", pt.N(1))}, Body: use})
+		emit("bound", "loopvar-over-num-literals", true, pt.For{Var: "b", Range: []pt.Expr{pt.A(pt.N(1), pt.N(2))}, Body: use})
+		emit("bound", "param", true, pt.Func{Name: "f", Params: []pt.Param{{Name: "b", T: tNumArr}}, Body: use}, pt.CallStmt{C: pt.C("f", pt.A(pt.N(1)))})
+		emit("bound", "variadic-param", true, pt.Func{Name: "f", Params: []pt.Param{{Name: "b", T: pt.TNum}}, Variadic: true, Body: use}, pt.CallStmt{C: pt.C("f", pt.N(1), pt.N(2))})
+		emit("bound", "func-result", true, pt.Func{Name: "mk", Ret: tNumArr, Body: []pt.Stmt{pt.Return{X: pt.A(pt.N(1))}}}, pt.InferDecl{Name: "b", X: pt.C("mk")}, use[0], use[1], use[2])
+		emit("bound", "element-of-variable", true, pt.InferDecl{Name: "xs", X: pt.A(pt.A(pt.N(1)))}, pt.InferDecl{Name: "b", X: pt.Index{X: pt.V("xs"), I: pt.N(0)}}, use[0], use[1], use[2])
 	}
 	// contexts that do not depend on a target type
 	for _, val := range values {
